@@ -2,6 +2,7 @@ package variable
 
 import (
 	"fmt"
+	"net/netip"
 	"strconv"
 	"time"
 
@@ -520,4 +521,13 @@ func SetWafVariables(ctx *context.Context, name, operator string, val value.Valu
 		))
 	}
 	return false, nil
+}
+
+// parseRemoteAddr parses the client address of a request. net/http stores it as "IP:port"
+// ("[IPv6]:port"), so the port is stripped when present.
+func parseRemoteAddr(addr string) (netip.Addr, error) {
+	if ap, err := netip.ParseAddrPort(addr); err == nil {
+		return ap.Addr(), nil
+	}
+	return netip.ParseAddr(addr)
 }
